@@ -158,7 +158,7 @@ BUDGET_BY_C = {
     52: {2: 3442877901711959, 3: 3950079521973701, 4: 3149036747569649, 5: 3394067498552893, 6: 3608747147451269},
     57: {2: 123555123343623317, 3: 87754760134550489, 4: 94246823930717543, 5: 111609884167583119, 6: 125514098085399031},
     62: {2: 3705616012538069029, 3: 4038804205138201073, 4: 3715687105216723589, 5: 3657842105048996923, 6: 3668058433509738187},
-    64: {2: 11715253032429507389, 3: 14210970954071523311, 4: 16586216078265476311, 5: 11987133315365360137},
+    64: {2: 11715253032429507389, 3: 14210970954071523311, 4: 16586216078265476311, 5: 11987133315365360137, 6: 17985119565519170059},
 }
 # rho_semiprime, per (window, c): polynomials 1..c-1 fail with the real budget, c succeeds, and halving the budget of polynomial c ALONE
 # changes the answer. The last three of window 48, c = 3 are the inputs of the review-4 mutant `.or_else(|| rho64(n, 3, 2048))`.
